@@ -62,7 +62,7 @@ class Uses:
             for val in self._setup_by[k]:
                 p, pv, props = val
 
-                key = "%s-%s" % (p, pv)
+                key = (p, pv)           # not "%s-%s": ("a-1", "2") and ("a", "1-2") are different users
                 if key not in dmin or props.depth < dmin[key]:
                     dmin[key] = props.depth
                     vmin[key] = val
